@@ -10,6 +10,7 @@ EXPLANATION = (
     "a DataRequest is built only when connection.subscriptions.insert() reported a new filter; retained forwards carry no log cursor. "
     "(R-C15-window) the list of retained messages replayed to a new subscription is truncated to a length derived from the subscriber's window (Outgoing::free_slots / max_outgoing_packet_count) only; "
     "(R-C15-match) read_retained_messages passes the retained map's key (a topic) as matches()'s topic argument and the subscription filter as its filter argument; "
+    "(R-C15-expiry) the expiry sweep of read_retained_messages only decides what to keep: it does not store into a retained message (remaining interval) unless it re-bases the stored timestamp with it; "
     "NOT decided: 'most recent per topic' over publish histories; the retain flag on the wire (C04).")
 ASSUMPTIONS = ["rustc MIR construction is correct"]
 TECHNIQUE = "static analysis: edge-restricted dominance and must-pass rules, provenance, sibling agreement"
@@ -22,6 +23,7 @@ def run(ctx):
     ctx.guarded("R-C15-store", store, ctx, prog)
     ctx.guarded("R-C15-oneshot", oneshot, ctx, prog)
     ctx.guarded("R-C15-window", window, ctx, prog)
+    ctx.guarded("R-C15-expiry", reads_do_not_age, ctx, prog)
     ctx.guarded("R-C15-match", matchroles.check, ctx, "R-C15-match", prog, r"^router::logs::DataLog::read_retained_messages$", "retained replay for a new subscription")
 
 
@@ -207,3 +209,65 @@ def oneshot(ctx, prog):
                 else:
                     ctx.violation(rule, p.id, "re-subscription replays", "a DataRequest (with forward_retained) is created even when the filter was already subscribed", site=p.loc(st.get("sp")))
     ctx.floor(rule, "DataRequest constructions", n, 1)
+
+
+def reads_do_not_age(ctx, prog):
+    """read_retained_messages runs for EVERY new subscription and walks the whole retained map. It may discard what has
+    expired, but it must not write the remaining message-expiry interval back into the stored copy while the stored
+    timestamp stays the arrival time: the next read would subtract the whole age again, and a retained message would
+    be discarded long before its interval has passed (it is then missing for the next new subscription)."""
+    rule = "R-C15-expiry"
+    parent = prog.one(r"^router::logs::DataLog::read_retained_messages$")
+    closures = prog.find(r"^router::logs::DataLog::read_retained_messages::\{closure#\d+\}$")
+    # the closure handed to HashMap::retain over retained_publishes: (&K, &mut V) after the environment
+    walkers = []
+    for bb, t in parent.calls():
+        if re.search(r"HashMap::<K, V, S(, A)?>::retain$", callee_path(t)) and not parent.is_cleanup(bb):
+            fs = receiver_fields(parent, t)
+            if fs and fs[-1] == "retained_publishes":
+                for a in t["args"][1:]:
+                    for s in flatten_src(provenance(parent, a)):
+                        if s.kind == "agg" and any(c.id == s.adt for c in closures):
+                            walkers += [c for c in closures if c.id == s.adt]
+    if not walkers:
+        # no expiry sweep over the stored map at all: nothing is written back
+        muts = [t for bb, t in parent.calls() if re.search(r"HashMap::<K, V, S(, A)?>::(values_mut|iter_mut|get_mut|entry)$", callee_path(t)) and not parent.is_cleanup(bb)]
+        if muts:
+            raise AnchorMissing("read_retained_messages: the stored retained messages are reached mutably in a way this rule does not know (%s)" % callee_path(muts[0]))
+        ctx.ok(rule, parent.id, "read_retained_messages does not reach the stored retained messages mutably", site=parent.fn_loc())
+        return
+    TH = [r"Option::<T>::as_mut$", r"Option::<T>::unwrap$", r"Option::<T>::as_deref_mut$"]
+    for cb in walkers:
+        stored = cb.argc      # last parameter: &mut V
+        written = {}
+        for bi, b in enumerate(cb.blocks):
+            if b.get("cleanup"):
+                continue
+            for st in b["s"]:
+                if "lhs" not in st or "*" not in [p for p in st["lhs"].get("p", []) if isinstance(p, str)]:
+                    continue
+                base = st["lhs"]["l"]
+                own = [x.split(".")[-1] for x in place_fields(st["lhs"])]
+                if base == stored:
+                    written[(own or ["*"])[-1]] = st
+                    continue
+                for s in flatten_src(provenance(cb, {"m": {"l": base}}, through_calls=TH)):
+                    if s.kind == "param" and s.l == stored:
+                        written[(own or list(s.fields or ["*"]))[-1]] = st
+        # compound assignment on a non-primitive (`pubdata.timestamp += ..`) is a call taking `&mut field`
+        for bb, t in cb.calls():
+            if cb.is_cleanup(bb) or not re.search(r"Assign(<[^>]*>)?>::\w+_assign$", callee_path(t)):
+                continue
+            for x in flatten_src(provenance(cb, t["args"][0], through_calls=TH)):
+                if x.kind == "param" and x.l == stored:
+                    written[(list(x.fields or ["*"]))[-1]] = {"sp": t.get("sp")}
+        if not written:
+            ctx.ok(rule, cb.id, "the expiry sweep over retained_publishes only decides what to keep: nothing is written into a stored message", site=cb.fn_loc())
+        elif "timestamp" in written:
+            ctx.ok(rule, cb.id, "the stored interval is re-based together with the stored timestamp", site=cb.fn_loc())
+        else:
+            st = list(written.values())[0]
+            ctx.violation(rule, cb.id, "stored retained message aged by a read",
+                          "the sweep in read_retained_messages writes into %s of the STORED retained message (remaining = interval − age) while its timestamp stays the arrival time: every later read — any new subscription on any filter — subtracts the whole age again, "
+                          "so the message is discarded well before its message-expiry interval has passed and the next new subscription does not get it" % sorted(written),
+                          site=cb.loc(st.get("sp")))
